@@ -64,6 +64,9 @@ def analyse(prog, vec, mode, n, p, st, viols):
                       "honest witness missing from the solution set", prog, vec, mode, n, p))
         return
     for f in e2.classify(inst, sols):
+        if f["klass"] == "undecided-dependent":
+            st["undecided"] += 1
+            continue
         alt = f["alt"]
         full = dict(inst.assignment)
         full.update(alt)
